@@ -238,7 +238,7 @@ static void worker_main(PropertyDef *def, const std::string &tier, uint64_t seed
     tally(sum, plan, r, i);
     if (hash_only) { hashes.push(Json::arr().push((unsigned long long)i).push(hex64(r.trace_hash)).push(r.verdict)); continue; }
     for (auto &s : r.known) fprintf(out, "K %s\n", s.c_str());
-    if (r.verdict == "violation" && vcount < 3 && !seen_classes.count(r.cls())) {
+    if (r.verdict == "violation" && vcount < 2 && !seen_classes.count(r.cls())) {
       vcount++; seen_classes.insert(r.cls());
       // determinism of the failing run, then minimise, then write the replay file
       alarm(600);
@@ -246,7 +246,7 @@ static void worker_main(PropertyDef *def, const std::string &tier, uint64_t seed
       Json v = Json::obj(); v.set("i", (unsigned long long)i).set("class", r.cls()).set("detail", r.violations[0].detail);
       if (r2.trace_hash != r.trace_hash || r2.cls() != r.cls()) { v.set("nondeterministic", true); fprintf(out, "V %s\n", v.dump().c_str()); alarm(0); continue; }
       int used = 0;
-      Plan small = shrink_plan(plan, r.cls(), images, 400, &used);
+      Plan small = shrink_plan(plan, r.cls(), images, now_s() > deadline - 10 ? 40 : 200, &used);
       RunResult rs = run_plan(small, images, true);
       if (!(rs.verdict == "violation" && rs.cls() == r.cls())) { small = plan; rs = run_plan(small, images, true); }
       alarm(0);
